@@ -42,7 +42,18 @@ def cases(draw, tier):
           'calib_seeds': [draw(st.integers(0, 999)) for _ in range(n)],
           'input_seed': 0}
   draw(engine.usage_dimensions(case))
+  if draw(st.integers(0, 5)) == 0:
+    # every min/max rule names a user-registered algorithm (same kernels under
+    # another key, registered through the public extension API)
+    from vq.props import c12
+    for r in case['recipe']['rules']:
+      if r['algo'] == R.MINMAX:
+        r['algo'] = c12.USER_ALGO
+    case['user_algorithm'] = True
   return case
+
+
+CALIBRATING = (R.MINMAX, 'vq_user_min_max')
 
 
 def expected_keys(case, out):
@@ -52,23 +63,25 @@ def expected_keys(case, out):
   selected = []
   for si, sg in enumerate(case['model']['subgraphs']):
     for p in rp[si]['ops']:
-      if p.algo != R.MINMAX:
+      if p.algo not in CALIBRATING:
         continue
       n = sg['nodes'][p.node_index]
       selected.append((si, p.node_index))
       for t in n['in'] + n['out']:
         if t >= 0:
           keys.add(sg['tensors'][t]['name'])
-    if rp[si]['input'][0] == R.MINMAX:
+    if rp[si]['input'][0] in CALIBRATING:
       keys.update(sg['tensors'][t]['name'] for t in sg['inputs'])
-    if rp[si]['output'][0] == R.MINMAX:
+    if rp[si]['output'][0] in CALIBRATING:
       keys.update(sg['tensors'][t]['name'] for t in sg['outputs'])
   return keys, selected
 
 
 def check_case(case):
+  from vq.props import c12
+  c12.register_user_algorithm()
   out = engine.run(case)
-  labels = []
+  labels = ['user_registered_algorithm'] if case.get('user_algorithm') else []
   if out.stage == 'empty_recipe':
     return core.result(False, ['empty_recipe'])
   nt = False
